@@ -42,7 +42,7 @@ def main(tier, only=None):
     thorough = tier == "thorough"
     # presence-pattern sets (harness -DPATSET): 0 every subset of S1's 7 leaves; 1 basic + every subset of the four
     # bit-field leaves; 3 none/all/each-missing/alternating; 4 none/all/alternating
-    static_pat = {1: 0, 2: 1, 3: 1, 4: 1}
+    static_pat = {1: 0, 2: 1, 3: 1, 4: 1 if thorough else 3}
     auto_pat = {1: 3, 2: 3, 3: 3, 4: 3} if thorough else {1: 3, 2: 4, 3: 4, 4: 4}
     hs = []
     for sh, name in SHAPES:
